@@ -5,9 +5,9 @@
 //	<path>\t<marker>\t<type>
 //
 // ShootNew / ShootEnum / ShootMap: the receiver's base type name.
-// ShootRest: the interface name, read from the result type of the
-// ConfigHTTPClient method that has the same receiver (the receiver itself is
-// the camel-cased implementation struct).
+// ShootRest: the interface name, read from the result type of the nearest
+// preceding ConfigHTTPClient method with the same receiver (the receiver itself
+// is the camel-cased implementation struct).
 // A file that does not parse yields  <path>\tPARSE_ERROR\t<message>.
 // Every file ends with a line  <path>\tEND\t<package name>.
 // Only go/parser is used (no type checking): the files need not compile.
@@ -59,23 +59,25 @@ func main() {
 				continue
 			}
 		}
-		// receiver -> result type of ConfigHTTPClient
+		// receiver -> result type of the latest ConfigHTTPClient seen so far (source order): the
+		// template emits ConfigHTTPClient right before ShootRest, and two interfaces (X, _x) can
+		// share one camel-cased implementation struct name
 		conf := map[string]string{}
 		for _, d := range f.Decls {
 			fn, ok := d.(*ast.FuncDecl)
-			if !ok || fn.Recv == nil || len(fn.Recv.List) == 0 || fn.Name.Name != "ConfigHTTPClient" {
-				continue
-			}
-			if fn.Type.Results != nil && len(fn.Type.Results.List) == 1 {
-				conf[baseName(fn.Recv.List[0].Type)] = baseName(fn.Type.Results.List[0].Type)
-			}
-		}
-		for _, d := range f.Decls {
-			fn, ok := d.(*ast.FuncDecl)
-			if !ok || fn.Recv == nil || len(fn.Recv.List) == 0 || !markers[fn.Name.Name] {
+			if !ok || fn.Recv == nil || len(fn.Recv.List) == 0 {
 				continue
 			}
 			recv := baseName(fn.Recv.List[0].Type)
+			if fn.Name.Name == "ConfigHTTPClient" {
+				if fn.Type.Results != nil && len(fn.Type.Results.List) == 1 {
+					conf[recv] = baseName(fn.Type.Results.List[0].Type)
+				}
+				continue
+			}
+			if !markers[fn.Name.Name] {
+				continue
+			}
 			if fn.Name.Name == "ShootRest" {
 				if r, ok := conf[recv]; ok {
 					recv = r
